@@ -385,7 +385,7 @@ func suites(tier string) []hlib.Suite {
 	if tier == "quick" {
 		return []hlib.Suite{stagedSuite(2, 2, false), stagedSuite(2, 2, true), stagedSuite(3, 1, false), rampSuite(2), largeSuite()}
 	}
-	return []hlib.Suite{stagedSuite(3, 2, false), stagedSuite(3, 2, true), stagedSuite(2, 3, false), stagedSuite(2, 3, true), rampSuite(3), largeSuite()}
+	return []hlib.Suite{stagedSuite(3, 2, false), stagedSuite(3, 2, true), stagedSuite(2, 3, false), stagedSuite(2, 3, true), stagedSuite(4, 1, false), stagedSuite(3, 3, true), rampSuite(3), largeSuite()}
 }
 
 func main() { hlib.EnumMain("C10", suites) }
